@@ -42,6 +42,10 @@ func (c10) Required(tier string) []string {
 var hostileOps = apiNames(nil)
 
 func genHostileDoc(r *Rand, tier string) Doc {
+	if r.Chance(1, 60) {
+		// more distinct field names than any table of a "reasonable" size holds
+		return genDistinctKeysDoc(r, r.Intn(100000), []int{300, 1100, 2100, 5000}[r.Intn(4)])
+	}
 	switch r.Pick(3, 1, 4, 3, 4, 3, 1) {
 	case 0: // far too deep, balanced
 		ns := []int{10001, 10002, 20000, 100000}
